@@ -58,7 +58,15 @@ def nest(src, nesting):
     ind = lambda s: "".join("    " + l + "\n" for l in s.splitlines())
     return {"top": src, "mod1": f"pub mod outer {{\n{ind(src)}}}\n", "mod2": f"pub mod outer {{\n    pub mod inner {{\n{ind(ind(src))}    }}\n}}\n",
             "fn_body": f"pub fn somewhere() {{\n{ind(src)}}}\n", "impl_block": f"pub struct Holder;\nimpl Holder {{\n    pub fn method(&self) {{\n{ind(ind(src))}    }}\n}}\n",
-            "cfg_mod": f"#[cfg(test)]\nmod tests {{\n{ind(src)}}}\n"}[nesting]
+            "cfg_mod": f"#[cfg(test)]\nmod tests {{\n{ind(src)}}}\n",
+            # every other place where Rust allows an item: initialiser blocks, nested blocks, trait default methods, closures
+            "const_block": f"const _: () = {{\n{ind(src)}}};\n",
+            "const_init_value": f"pub const LIMIT: u32 = {{\n{ind(src)}    10\n}};\n",
+            "static_block": f"pub static TABLE: u32 = {{\n{ind(src)}    3\n}};\n",
+            "nested_blocks_in_fn": f"pub fn somewhere() {{\n    loop {{\n        unsafe {{\n{ind(ind(ind(src)))}        }}\n        break;\n    }}\n}}\n",
+            "trait_default_fn": f"pub trait Provider {{\n    fn provide(&self) {{\n{ind(ind(src))}    }}\n}}\n",
+            "closure_in_fn": f"pub fn somewhere() {{\n    let f = || {{\n{ind(ind(src))}    }};\n    f();\n}}\n",
+            "mod_in_fn": f"pub fn somewhere() {{\n    mod hidden {{\n{ind(ind(src))}    }}\n}}\n"}[nesting]
 
 
 def source(case, items):
@@ -212,7 +220,7 @@ def run(chk):
                 if k == "tagged_enum" and all(m["skipped"] or m["payload"] == "unit" for m in ms):
                     ms[0] = dict(ms[0], skipped=False, payload="newtype", fields=[])
             items.append({"name": name, "kind": k, "annotated": rng.random() < 0.7, "members": ms})
-        case = {"annotation": rng.choice(["plain", "path", "args"]) if items[0]["annotated"] else "none", "nesting": rng.choice(["top", "mod1", "mod2", "fn_body"]),
+        case = {"annotation": rng.choice(["plain", "path", "args"]) if items[0]["annotated"] else "none", "nesting": rng.choice(["top", "mod1", "mod2", "fn_body", "const_block", "static_block", "trait_default_fn", "closure_in_fn"]),
                 "spelling": rng.choice(list(SKIP)), "kind": items[0]["kind"], "skips": "random", "mode": rng.choice(["single", "multi"])}
         if not any(it["annotated"] for it in items):
             items[1]["annotated"] = True
